@@ -670,7 +670,7 @@ impl<'a> Gen<'a> {
                 s.items.push(Item { expr: e, alias: Some(a.clone()), window: None });
                 s.out.push(a);
             }
-            if self.cfg.dialect.is_none() && self.rng.chance(1, 10) {
+            if self.cfg.exec && self.rng.chance(1, 10) {
                 // a binary value among the items: x'..' on MySQL / SQLite, '\x..' on Postgres
                 let t = self.rng.below(200) as u8;
                 let a = self.fresh("o");
